@@ -412,6 +412,19 @@ impl PqMapper<RelationExpr, RelationExpr, (), ()> for SortingInference<'_> {
                     sorting_from_distinct_on = true;
                     result.push(SqlTransform::Sort(sorting.clone()));
                 }
+
+                // The operand of a set operation that is emitted as a sub-query is not
+                // visited by this pass: at least drop the sorts that its own aggregation
+                // (or DISTINCT) resets, which refer to columns that do not exist after it.
+                SqlTransform::Union { ref mut bottom, .. }
+                | SqlTransform::Except { ref mut bottom, .. }
+                | SqlTransform::Intersect { ref mut bottom, .. } => {
+                    if let RelationExprKind::SubQuery(SqlRelation::AtomicPipeline(pipeline)) =
+                        &mut bottom.kind
+                    {
+                        drop_sorts_reset_by_aggregation(pipeline);
+                    }
+                }
                 _ => {}
             }
             result.push(transform)
@@ -437,6 +450,20 @@ impl PqMapper<RelationExpr, RelationExpr, (), ()> for SortingInference<'_> {
         self.last_sorting_from_distinct_on = sorting_from_distinct_on;
 
         Ok(result)
+    }
+}
+
+/// Removes the sorts of a pipeline that are followed by an aggregation or a DISTINCT.
+fn drop_sorts_reset_by_aggregation(pipeline: &mut Vec<SqlTransform<RelationExpr, ()>>) {
+    let resets = |t: &SqlTransform<RelationExpr, ()>| {
+        matches!(t, SqlTransform::Distinct | SqlTransform::Aggregate { .. })
+    };
+    if let Some(last_reset) = pipeline.iter().rposition(resets) {
+        let mut position = 0;
+        pipeline.retain(|t| {
+            position += 1;
+            !(position <= last_reset && matches!(t, SqlTransform::Sort(_)))
+        });
     }
 }
 
